@@ -15,6 +15,7 @@ import Kvass.Proofs.LoopRepair
 import Kvass.Proofs.LoopStep
 import Kvass.Proofs.LoopRecover
 import Kvass.Proofs.LoopSettle
+import Kvass.Proofs.LoopSettle2
 
 namespace Kvass.Props.C06
 open Kvass Kvass.Coord Kvass.Spec
@@ -282,6 +283,29 @@ theorem C06_settles_in_one_cycle (swr : Swr) (env : Loop.Env) (w : Loop.World) (
         (∀ h v, (Loop.statusOf sh').get h = some v → v.state = .normal) :=
   Loop.loop_settles swr env w sc r
 
+/-- **C06 in one theorem, for a settled system**: whatever mixture of the three residues a fault can
+    leave — a copy in transfer whose partner is gone, a hand-over both sides of which are there, a target
+    held twice in normal state (at most two holders per target, three scrapes each) — one fault-free
+    `Loop.step` repairs all of them at once: the StatefulSet keeps its size, and every running sidecar
+    then reports the targets it reported before except the in-transfer copies that had a partner and the
+    normal-state copies that lose the coordinator's tie-break against a normal-state partner; everything
+    in normal state.  No target stays marked in-transfer, none stays duplicated, none is lost. -/
+theorem C06_repairs_all_in_one_cycle (swr : Swr) (env : Loop.Env) (w : Loop.World) (sc : Sched)
+    (r : Loop.Settled2 swr env w) :
+    (Loop.step swr env w (.cycle sc [] false)).replicas = w.replicas ∧
+    (Loop.step swr env w (.cycle sc [] false)).active = w.active ∧
+    ∀ (i : Nat) (sh : Loop.Shard), w.running[i]? = some sh →
+      ∃ sh', (Loop.step swr env w (.cycle sc [] false)).shards[i]? = some sh' ∧
+        (∀ h, h ∈ (Loop.statusOf sh').keys ↔
+          ∃ v, (Loop.statusOf sh).get h = some v ∧
+            ¬ (v.state = .inTransfer ∧ ∃ (k : Nat) (shk : Loop.Shard), k ≠ i ∧ w.running[k]? = some shk ∧
+                (Loop.statusOf shk).has h = true) ∧
+            ¬ (v.state = .normal ∧ ∃ (k : Nat) (shk : Loop.Shard) (vk : St), k ≠ i ∧ w.running[k]? = some shk ∧
+                (Loop.statusOf shk).get h = some vk ∧ vk.state = .normal ∧
+                Gen.gcLess env.opt (Loop.rtOf env sh) (Loop.rtOf env shk) i k = true)) ∧
+        (∀ h v, (Loop.statusOf sh').get h = some v → v.state = .normal) :=
+  Loop.loop_settles2 swr env w sc r
+
 /-- a cycle in which nothing has to move is exactly `gcTargets` (what the recovery theorem rests on) -/
 theorem C06_calm_cycle_is_gc (swr : Swr) (sc : Sched) (inp : Input) (q : Calm swr inp) :
     (cycle swr sc inp).crashed = false ∧
@@ -368,6 +392,19 @@ def exMove : Loop.World :=
 /-- … is completed by one step: the source no longer reports the target, the destination does -/
 example : ((Loop.step (fun x r => x * r / 10) exEnv exMove (.cycle {} [] false)).shards.map
       fun sh => (Loop.statusOf sh).map fun p => (p.1, p.2.state)) = [[], [(1, .normal)]] := by
+  decide
+
+/-- a duplicate: both shards hold target 1 in normal state (4 and 5 scrapes), equal loads -/
+def exDup : Loop.World :=
+  { shards := [⟨{ targets := [⟨1, 10, 10, .normal, 1⟩], status := [(1, { health := .good, series := 10, total := 10, state := .normal, times := 4 })],
+                   idleAt := none }, 7⟩,
+               ⟨{ targets := [⟨1, 10, 10, .normal, 1⟩], status := [(1, { health := .good, series := 10, total := 10, state := .normal, times := 5 })],
+                   idleAt := none }, 6⟩],
+    replicas := 2, active := [1], explore := [] }
+
+/-- … is resolved by one step: with equal loads the later shard gives the target up -/
+example : ((Loop.step (fun x r => x * r / 10) exEnv exDup (.cycle {} [] false)).shards.map
+      fun sh => (Loop.statusOf sh).map fun p => (p.1, p.2.state)) = [[(1, .normal)], []] := by
   decide
 
 /-- the pending hand-over meets the hypotheses of `C06_settles_in_one_cycle` -/
